@@ -16,6 +16,8 @@ def gen_cases(tier):
         rng = family.rng_for(sd, PROP, i)
         schema = gen.SCHEMAS[i % len(gen.SCHEMAS)] if i % 9 != 4 else (["tlp_degenerate", "t4_chain", "fanout3", "twins"][(i // 9) % 4])
         pr = gen.build_pair(rng, schema, dyadic=0.1 if i % 7 == 0 else 0.0)
+        if i % 9 == 7 and (i // 9) % 3 == 0:
+            pr, schema = mixed2(rng) or pr, "mixed2"
         if pr is None:
             continue
         d1, d2, swap = pr
@@ -28,6 +30,8 @@ def gen_cases(tier):
             cfgs.append((rng.choice(gen.keep_choices(rng, d1, d2)), rng.random() < 0.5, o))
         if tier == "quick":
             cfgs = rng.sample(cfgs, min(4, len(cfgs)))
+        if schema == "mixed2":
+            cfgs = [([], False, [1]), ([], True, None), ([], False, [3, 1]), ([], True, [1, 2, 3, 4, 5])]
         if schema == "t4_chain":
             cfgs = [([], False, [4]), ([], True, [4, 1, 2]), ([], True, None), ([], False, [1, 2, 3, 4, 5])]
         if schema == "tlp_degenerate":
@@ -35,6 +39,24 @@ def gen_cases(tier):
             cfgs = [([], False, [5]), ([], False, [5, 1, 2, 3, 4]), ([], True, [5, 2]), ([], True, [5])]
         cases.append({"id": i + 1, "raw": [d1, d2], "swap": swap, "schema": schema, "cfgs": cfgs, "sibling": i % 3 == 0})
     return cases
+
+
+def mixed2(rng):
+    """The consumer assumes a bound on s1 x + s2 y + j over TWO outputs of the producer; the producer's guarantees over x and y have signs
+    drawn independently of s1, s2 (rows that bound x + y say nothing about x - y), rows of the wrong shape come before usable ones."""
+    s1, s2 = rng.choice([1, -1, 2]), rng.choice([1, -1, 2])
+    g = []
+    for _ in range(rng.randint(1, 2)):
+        g.append(({"x": rng.choice([1, -1, 2, -2]), "y": rng.choice([1, -1, 2, -2]), "i": rng.choice([1, -1])}, rng.randint(0, 5)))
+    if rng.random() < 0.6:
+        g += [({"y": 1 if s2 > 0 else -1}, rng.randint(1, 4)), ({"x": 1 if s1 > 0 else -1, "i": -1}, rng.randint(0, 5))]
+    d1 = {"inv": ["i"], "outv": ["x", "y"], "a": [({"i": 1}, rng.randint(2, 6))] if rng.random() < 0.5 else [], "g": g}
+    d2 = {"inv": ["x", "y", "j"], "outv": ["o"], "a": [({"x": s1, "y": s2, "j": 1}, rng.randint(6, 12))], "g": [({"o": 1, "j": -1}, rng.randint(0, 3))]}
+    try:
+        gen.mk_contract(d1), gen.mk_contract(d2)
+    except ValueError:
+        return None
+    return d1, d2, rng.random() < 0.5
 
 
 def plant_twins(rng, d1, d2):
